@@ -17,8 +17,16 @@
 //	     routes: r;r;…  r = mutenames/activenames, names ','-joined hex
 //	z <unix> <zonehex,zonehex…>                                               -> zone:off:y:m:d:wd:h:mi:dim:dimloc …   (dim: month length, calendar; dimloc: the pinned expression evaluated in the zone, diagnostic)
 //	c <unix> <callerzonehex>                                                  -> bits.bits.…   (one group per set, '-' empty set)
-//	m <unix> <names>                                                          -> <0|1> <names|-> | err
-//	st <unix|nonow> <a|m|p> <mutenames|nokey> <activenames|nokey> <n> <route> -> <nout> <err> <muted> <markernames|->
+//	m <unix> <names> [<callerzonehex>]                                        -> <0|1> <names|-> | err
+//	st <unix|nonow> <a|m|p> <mutenames|nokey> <activenames|nokey> <n> <route> [<callerzonehex>] -> <nout> <err> <muted> <markernames|->
+//	local <zonehex>                                                           (time.Local for the rest of the case; UTC at the start of every case)
+//
+// Caller zones.  A Go time.Time is an instant plus a location.  C15 is about the
+// instant: `m` and `st` hand the SAME instant to Intervener.Mutes / put it into
+// the stage's context carried in the caller zone given on the line (default
+// UTC): an IANA zone, `Fixed/<seconds east>` (time.FixedZone) or `Local`
+// (time.Unix(u, 0) as it is: the process's zone, which is what the
+// dispatcher's timer instants carry; the `local` op sets it).
 package timeint
 
 import (
@@ -315,8 +323,32 @@ type world struct {
 
 func loadLoc(name string) (*time.Location, error) { return time.LoadLocation(name) }
 
+// fixedZones: caller zones without a tz database entry (far east / far west, odd minutes, seconds).
+var fixedZones = []string{"Fixed/50400", "Fixed/46800", "Fixed/-43200", "Fixed/-39600", "Fixed/20700", "Fixed/-12600", "Fixed/34200", "Fixed/-16966", "Fixed/3600"}
+
+var locCache = map[string]*time.Location{}
+
+// mustLoc resolves a zone of the protocol (z / c / m / st / local lines): IANA name, UTC, Local, Fixed/<seconds>.
 func mustLoc(name string) *time.Location {
+	if name == "Local" {
+		return time.Local
+	}
+	if l, ok := locCache[name]; ok {
+		return l
+	}
+	if strings.HasPrefix(name, "Fixed/") {
+		secs, err := strconv.Atoi(name[len("Fixed/"):])
+		if err != nil {
+			panic(err)
+		}
+		l := time.FixedZone(name, secs)
+		locCache[name] = l
+		return l
+	}
 	l, err := loadLoc(name)
+	if err == nil {
+		locCache[name] = l
+	}
 	if err != nil {
 		panic(err)
 	}
@@ -409,6 +441,17 @@ func encNames(l []string) string {
 	return hx.Join(out, ",")
 }
 
+// instantIn is the instant u carried in the caller zone given by token i of the line (UTC when absent).
+func instantIn(u int64, t []string, i int) time.Time {
+	if len(t) <= i {
+		return time.Unix(u, 0).UTC()
+	}
+	if z := hx.Unhex(t[i]); z != "Local" {
+		return time.Unix(u, 0).In(mustLoc(z))
+	}
+	return time.Unix(u, 0) // as time.Now() and timer channels deliver it: in time.Local
+}
+
 // exec runs one script line and returns the observation ("" = none).
 func (w *world) exec(line string) string {
 	t := strings.Fields(line)
@@ -488,9 +531,12 @@ func (w *world) exec(line string) string {
 			out = append(out, string(bits))
 		}
 		return hx.Join(out, ".")
+	case "local":
+		time.Local = mustLoc(hx.Unhex(t[1]))
+		return ""
 	case "m":
 		u := hx.Atoi64(t[1])
-		muted, by, err := w.intervener.Mutes(names(t[2]), time.Unix(u, 0))
+		muted, by, err := w.intervener.Mutes(names(t[2]), instantIn(u, t, 3))
 		if err != nil {
 			return "err"
 		}
@@ -502,7 +548,7 @@ func (w *world) exec(line string) string {
 	case "st":
 		ctx := context.Background()
 		if t[1] != "nonow" {
-			ctx = notify.WithNow(ctx, time.Unix(hx.Atoi64(t[1]), 0))
+			ctx = notify.WithNow(ctx, instantIn(hx.Atoi64(t[1]), t, 7))
 		}
 		ctx = notify.WithGroupKey(ctx, "g")
 		ctx = notify.WithRouteID(ctx, t[6])
@@ -1049,8 +1095,32 @@ func uniq(l []string) []string {
 }
 
 type caseRun struct {
-	tr *hx.Trace
-	w  *world
+	tr      *hx.Trace
+	w       *world
+	local   string   // the process's zone set by the `local` op ("" = UTC)
+	callers []string // caller zones of the case besides UTC / Local / the intervals' zones
+}
+
+// newCase starts a case: fresh world, time.Local back to UTC.
+func newCase(tr *hx.Trace) *caseRun {
+	time.Local = time.UTC
+	return &caseRun{tr: tr, w: &world{}}
+}
+
+// zonesForCase picks the process's zone (two cases in three: not UTC) and two
+// caller zones: a fixed offset (far east / far west, odd minutes) and an IANA zone.
+func (g *gen) zonesForCase(c *caseRun) {
+	if g.p(2, 3) {
+		c.local = hx.Pick(g.r, zoneNames)
+		if g.p(1, 3) {
+			c.local = hx.Pick(g.r, fixedZones)
+		}
+		c.do("local " + hx.Hex(c.local))
+	}
+	c.callers = []string{hx.Pick(g.r, fixedZones), hx.Pick(g.r, zoneNames)}
+	if g.p(1, 2) {
+		c.callers[0] = hx.Pick(g.r, fixedZones[:4]) // +14:00, +13:00, -12:00, -11:00
+	}
 }
 
 func (c *caseRun) do(line string) string {
@@ -1073,8 +1143,37 @@ func (g *gen) subset(l []string, pEach int) []string {
 	return out
 }
 
+// callerTok draws the zone in which the next m / st line carries its instant:
+// UTC, the process's zone (Local), one of the case's caller zones (a fixed
+// far-east / far-west offset, an IANA zone with DST) or an interval's zone.
+func (g *gen) callerTok(c *caseRun, zones []string) string {
+	switch x := g.r.IntN(100); {
+	case x < 20:
+		return hx.Hex("UTC")
+	case x < 45:
+		return hx.Hex("Local")
+	case x < 85 && len(c.callers) > 0:
+		return hx.Hex(hx.Pick(g.r, c.callers))
+	}
+	return hx.Hex(hx.Pick(g.r, zones))
+}
+
+// otherCaller draws a caller zone different from tok.
+func (g *gen) otherCaller(c *caseRun, zones []string, tok string) string {
+	for range 8 {
+		if o := g.callerTok(c, zones); o != tok {
+			return o
+		}
+	}
+	return hx.Hex("UTC")
+}
+
 // evaluate writes the z/c/m/st lines of one instant.
 func (g *gen) evaluate(c *caseRun, u int64, zones []string, setNames []string) {
+	zones = uniq(append(append([]string{}, zones...), c.callers...))
+	if c.local != "" {
+		zones = uniq(append(zones, c.local))
+	}
 	zh := make([]string, len(zones))
 	for i, z := range zones {
 		zh[i] = hx.Hex(z)
@@ -1102,7 +1201,12 @@ func (g *gen) evaluate(c *caseRun, u int64, zones []string, setNames []string) {
 		return encNames(l)
 	}
 	if g.p(1, 2) {
-		c.do(fmt.Sprintf("m %d %s", u, nameList()))
+		nl, ct := nameList(), g.callerTok(c, zones)
+		c.do(fmt.Sprintf("m %d %s %s", u, nl, ct))
+		if g.p(1, 2) {
+			// the same question with the instant carried in another zone
+			c.do(fmt.Sprintf("m %d %s %s", u, nl, g.otherCaller(c, zones, ct)))
+		}
 	}
 	for range g.r.IntN(3) {
 		now := strconv.FormatInt(u, 10)
@@ -1127,7 +1231,11 @@ func (g *gen) evaluate(c *caseRun, u int64, zones []string, setNames []string) {
 		if mode != "p" && g.p(1, 10) {
 			n = 0
 		}
-		c.do(fmt.Sprintf("st %s %s %s %s %d r%d", now, mode, mn, an, n, g.r.IntN(2)))
+		route, ct := g.r.IntN(2), g.callerTok(c, zones)
+		c.do(fmt.Sprintf("st %s %s %s %s %d r%d %s", now, mode, mn, an, n, route, ct))
+		if g.p(1, 3) {
+			c.do(fmt.Sprintf("st %s %s %s %s %d r%d %s", now, mode, mn, an, n, route, g.otherCaller(c, zones, ct)))
+		}
 	}
 }
 
@@ -1176,8 +1284,9 @@ func (c *caseRun) zonesOf(extra ...string) []string {
 
 // genCase: random intervals, instants from the grid, the intervals' own boundaries and nearby transitions.
 func (g *gen) genCase(tr *hx.Trace, id int) {
-	c := &caseRun{tr, &world{}}
+	c := newCase(tr)
 	tr.Linef("case %d kind=gen", id)
+	g.zonesForCase(c)
 	pool := []string{hx.Pick(g.r, zoneNames), hx.Pick(g.r, zoneNames)}
 	anchor := clockOf(time.Unix(g.gridInstant(), 0).In(mustLoc(pool[0])))
 	mk := func() spec {
@@ -1213,7 +1322,8 @@ func (g *gen) genCase(tr *hx.Trace, id int) {
 		case x < 8:
 			u = g.boundaryInstant(hx.Pick(g.r, all))
 		default:
-			z := hx.Pick(g.r, zones)
+			// an offset change of one of the case's zones, the caller zones and the process zone included
+			z := hx.Pick(g.r, uniq(append(append([]string{c.local}, c.callers...), zones...)))
 			if ts := transByZone[z]; len(ts) > 0 {
 				u = hx.Pick(g.r, ts).at + hx.Pick(g.r, transDeltas)
 			} else {
@@ -1230,9 +1340,15 @@ func (g *gen) genCase(tr *hx.Trace, id int) {
 // date line: local calendar days are skipped or repeated) the surrounding ten
 // weeks are sampled daily as well and every interval has a days_of_month field.
 func (g *gen) edgeCase(tr *hx.Trace, id int, ts []transition) {
-	c := &caseRun{tr, &world{}}
+	c := newCase(tr)
 	tr.Linef("case %d kind=edge", id)
+	g.zonesForCase(c)
 	zone := ts[0].zone
+	if g.p(1, 4) {
+		// the process itself runs in the zone whose offset changes
+		c.local = zone
+		c.do("local " + hx.Hex(zone))
+	}
 	loc := mustLoc(zone)
 	var instants []int64
 	big := false
@@ -1271,8 +1387,9 @@ func (g *gen) edgeCase(tr *hx.Trace, id int, ts []transition) {
 
 // badCase: specifications from the tricky pools; only accept/reject (and the parsed values) are compared.
 func (g *gen) badCase(tr *hx.Trace, id int) {
-	c := &caseRun{tr, &world{}}
+	c := newCase(tr)
 	tr.Linef("case %d kind=bad", id)
+	g.zonesForCase(c)
 	mk := func() spec {
 		s := g.validInterval(nil, hx.Pick(g.r, []string{"", "", "UTC", "Europe/Berlin"}), 30)
 		if g.p(3, 4) {
@@ -1309,7 +1426,7 @@ func replay(tr *hx.Trace, script []string) {
 	var c *caseRun
 	for _, l := range script {
 		if strings.HasPrefix(l, "case ") {
-			c = &caseRun{tr, &world{}}
+			c = newCase(tr)
 			tr.Linef("%s", l)
 			continue
 		}
